@@ -92,6 +92,12 @@ CHECKS = {
                      "applies the statements in order, each on the state left by the earlier ones, and requires the dump after COMMIT to equal "
                      "the result (after ROLLBACK: the graph before); a divergence is attributed by re-evaluating with committed-snapshot reads.",
                 note="known finding KF-21"),
+    "C34": dict(ref="5 C34", tech="TLA+ trace validation (CypherTrace.TParity/TAccept) with the documented acceptance rule ContainsWrite over the clause tree",
+                text="The same reads run through ndb_query and through prepare + execute_streaming on identical databases: TLC requires the same "
+                     "outcome, the same error category and the same bag of canonical rows; 21 statement classes (updates at top level, in "
+                     "FOREACH, in CALL subqueries incl. nested ones, in UNION branches) are offered to ndb_query and ndb_execute_write and TLC "
+                     "checks the gate decisions against ContainsWrite evaluated on the statement's clause tree.",
+                note="EXPLAIN and statements both entries reject as syntax errors are not judged"),
     "C26": dict(ref="5 C26", tech="TLC model checking of BTree.tla + TLA+ trace validation (BTreeTrace) of the real B-tree",
                 text="BTree.tla transcribes insert/split/delete/cursor with page capacity 2; TLC checks scan/lookup/delete against the "
                      "sorted-multimap ghost exhaustively for unique keys, and reproduces the equal-keys defect whose counterexample is "
@@ -159,7 +165,7 @@ CHECKS = {
 }
 
 # properties whose check has been run green on the unchanged tree
-ENABLED = ["C01", "C02", "C03", "C04", "C05", "C06", "C07", "C08", "C09", "C10", "C11", "C12", "C13", "C14", "C15", "C17", "C19", "C20", "C21", "C22", "C23", "C24", "C26", "C27", "C28", "C29", "C30", "C32", "C33"]
+ENABLED = ["C01", "C02", "C03", "C04", "C05", "C06", "C07", "C08", "C09", "C10", "C11", "C12", "C13", "C14", "C15", "C17", "C19", "C20", "C21", "C22", "C23", "C24", "C26", "C27", "C28", "C29", "C30", "C32", "C33", "C34"]
 
 NOT_APPLICABLE = {
     "C16": "quantifies over arbitrary byte strings and resource exhaustion; no state machine to specify, a fuzzer's job (DESIGN.md 6)",
